@@ -410,7 +410,7 @@ def Dims (dim : L → Nat) : Prog L α → Prop
 
 end Prog
 
-theorem Expr.free_nodup (e : Expr L α) (h : e.SWF) : e.free.Nodup := by
+theorem Expr.free_nodup_of_swf (e : Expr L α) (h : e.SWF) : e.free.Nodup := by
   induction e with
   | leaf legs v => exact h.1
   | dot a b ps iha ihb =>
@@ -468,8 +468,8 @@ theorem Prog.run_eq_eval [Inhabited L] (dim : L → Nat) (p : Prog L α) (hswf :
     obtain ⟨hdp, hdq, hpd⟩ := hdim
     obtain ⟨Ca, hCa, hsa, hva⟩ := ihp hp hdp
     obtain ⟨Cb, hCb, hsb, hvb⟩ := ihq hq hdq
-    have hfa := Expr.free_nodup p.expr hp
-    have hfb := Expr.free_nodup q.expr hq
+    have hfa := Expr.free_nodup_of_swf p.expr hp
+    have hfb := Expr.free_nodup_of_swf q.expr hq
     have hna : Ca.shape.length = p.expr.free.length := by rw [hsa]; simp
     have hnb : Cb.shape.length = q.expr.free.length := by rw [hsb]; simp
     -- the request
